@@ -110,6 +110,9 @@ impl Ctx {
         match r {
             Ok(v) => Some(v),
             Err(p) => {
+                if let Some(b) = p.downcast_ref::<crate::payload::HarnessBug>() {
+                    self.errors.push(format!("[harness] {}", b.0));
+                }
                 self.last.panicked = true;
                 self.panics.push(p);
                 None
@@ -203,7 +206,7 @@ impl Ctx {
                                         false
                                     }
                                 },
-                                _ => panic!("harness: write on wrong kind"),
+                                _ => crate::payload::harness_bug("write on wrong kind"),
                             }
                         })
                     }
@@ -250,7 +253,7 @@ impl Ctx {
                                 H::IArS(a) => H::IArS(a.clone()),
                                 H::IArL(a) => H::IArL(a.clone()),
                                 H::IArH(a) => H::IArH(a.clone()),
-                                _ => panic!("harness: Clone on wrong kind"),
+                                _ => crate::payload::harness_bug("Clone on wrong kind"),
                             }
                         })
                     }
@@ -276,7 +279,7 @@ impl Ctx {
                         H::IUqS(u) => H::IArS(u.shareable()),
                         H::IUqL(u) => H::IArL(u.shareable()),
                         H::IUqH(u) => H::IArH(u.shareable()),
-                        _ => panic!("harness: Shareable on wrong kind"),
+                        _ => crate::payload::harness_bug("Shareable on wrong kind"),
                     });
                     self.slots[s] = n;
                 }
@@ -300,7 +303,7 @@ impl Ctx {
                         H::IArS(a) => tu!(a, H::IUqS, H::IArS),
                         H::IArL(a) => tu!(a, H::IUqL, H::IArL),
                         H::IArH(a) => tu!(a, H::IUqH, H::IArH),
-                        _ => panic!("harness: TryUnique on wrong kind"),
+                        _ => crate::payload::harness_bug("TryUnique on wrong kind"),
                     });
                     if let Some((n, v)) = n {
                         self.last.verdict = Some(v);
@@ -318,7 +321,7 @@ impl Ctx {
                             H::UqZ(u) => H::IUqZ(u.assume_init_slice_with_header()),
                             H::ArS(a) => H::IArS(a.assume_init()),
                             H::ArL(a) => H::IArL(a.assume_init()),
-                            _ => panic!("harness: AssumeInit on wrong kind"),
+                            _ => crate::payload::harness_bug("AssumeInit on wrong kind"),
                         }
                     });
                     self.slots[s] = n;
